@@ -5,4 +5,4 @@ From CppcmsV Require Import C12.Defs.
 Definition keep_types : (N * Z * nat) := (0%N, 0%Z, 0%nat).
 Extraction "c12m.ml" keep_types ct_boundary make_boundary init_state drive feed req_loop request_multipart
   parse_urlencoded f_size has_mime f_name f_filename f_mime f_rdata cur rfiles ready st pos media_type
-  deliver_post deliver_files encode mrun containsb mklim.
+  deliver_post deliver_files encode mrun containsb mklim request_service.
